@@ -21,6 +21,24 @@ pub fn sweep_archive(sw: &Sweep, rep: &mut Report, model: &mut Model, cfg: &Cfg,
     let hlen = parse_header(&b.bytes).map(|h| h.header_len).unwrap_or(0);
     let modes: &[bool] = if cfg.layers & L_ENC != 0 { &[true, false] } else { &[true] };
     rep.count(&format!("layers:{}", cfg.layers_name()));
+    // C05, third clause (no compression): the block layout of the inner stream, from the reference decoding of
+    // the whole archive — (name, start of the payload in the inner stream, end of the payload)
+    let mut layout: Vec<(String, usize, usize)> = vec![];
+    if sw.c05 && cfg.layers & L_COMP == 0 {
+        if let Ok(inner) = peel(&b.bytes, cfg) {
+            let mut names: BTreeMap<u64, String> = BTreeMap::new();
+            for (s0, e0, t) in crate::c08::block_ranges(&inner) {
+                if t == 0x00 && e0 >= s0 + 17 {
+                    let id = u64::from_le_bytes(inner[s0 + 1..s0 + 9].try_into().unwrap());
+                    names.insert(id, String::from_utf8_lossy(&inner[s0 + 17..e0]).to_string());
+                } else if t == 0x01 {
+                    let id = u64::from_le_bytes(inner[s0 + 1..s0 + 9].try_into().unwrap());
+                    if let Some(nm) = names.get(&id) { layout.push((nm.clone(), s0 + 17, e0)); }
+                }
+            }
+        }
+    }
+    let full = CONSTS.chunk + TAG;
     for &auth in modes {
         let mut prev: Option<(usize, BTreeMap<String, Vec<u8>>)> = None;
         for (ci, &n) in cuts.iter().enumerate() {
@@ -82,6 +100,28 @@ pub fn sweep_archive(sw: &Sweep, rep: &mut Report, model: &mut Model, cfg: &Cfg,
                                     return false;
                                 }
                             }
+                        }
+                        // "without compression it recovers all the file bytes present in the part of the stream it is
+                        //  allowed to use (everything present, or in authenticated mode everything in complete chunks)"
+                        if !layout.is_empty() && n >= hlen {
+                            let body = n - hlen;
+                            let allowed = if cfg.layers & L_ENC == 0 { body }
+                                else if !auth { (body / full) * CONSTS.chunk + (body % full).min(CONSTS.chunk) }
+                                else { (body / full) * CONSTS.chunk + if n == b.bytes.len() { (body % full).saturating_sub(TAG) } else { 0 } };
+                            let mut present: BTreeMap<&str, usize> = BTreeMap::new();
+                            for (nm, s0, e0) in &layout {
+                                if *s0 <= allowed { *present.entry(nm.as_str()).or_insert(0) += (*e0).min(allowed) - *s0; }
+                            }
+                            for (nm, want) in present {
+                                let got = rec.files.get(nm).map(|x| x.len()).unwrap_or(0);
+                                if got < want {
+                                    rep.violation("oracle", "C05/all-present", json!({"what":"present-bytes-not-recovered","layers":cfg.layers,"authenticated":auth}),
+                                        &format!("{nm:?}: {want} bytes of it are in the part of a {n}-byte prefix that repair may use ({}), {got} recovered", if auth { "complete chunks" } else { "everything present" }),
+                                        cut_case_b(cfg, ops, b, n, auth));
+                                    return false;
+                                }
+                            }
+                            rep.count("all-present:checked");
                         }
                         prev = Some((n, rec.files.clone()));
                     }
